@@ -30,6 +30,8 @@ inductive AV where
   | cleanS             -- a string without hostile bytes
   | cleanL             -- a list of strings without hostile bytes
   | funcs              -- a list of handlers that all pass the analysis
+  | anyBool            -- a boolean
+  | flag (t : Target)  -- a boolean that is true only if the target is clean
   | other
   deriving DecidableEq, Repr
 
@@ -69,6 +71,7 @@ def aeval (A : ACtx) (ρ : AEnv) : Expr → AV
         | none => .other
       | _ => .other
   | .funcs names => if names.all (A.closedFns.contains ·) then .funcs else .other
+  | .bool _ => .anyBool
   | .call f args =>
     match args with
     | [e] =>
@@ -93,6 +96,7 @@ def aeval (A : ACtx) (ρ : AEnv) : Expr → AV
 /-- "if this boolean expression evaluates to true, the target is clean" -/
 def aimp (A : ACtx) (ρ : AEnv) (t : Target) : Expr → Bool
   | .bool b => !b
+  | .var n => ρ n == .flag t
   | .call f args =>
     match args with
     | [a, b] =>
@@ -219,6 +223,7 @@ def havoc (ρ : AEnv) (ns : List String) : AEnv := fun m => if ns.contains m the
 def dropTag : AV → AV
   | .covS .elem => .other
   | .covL .elem => .other
+  | .flag .elem => .other
   | a => a
 
 def dropElem (ρ : AEnv) : AEnv := fun m => dropTag (ρ m)
@@ -242,6 +247,33 @@ def assignedIn : Nat → List Stmt → Option (List String)
         | some a => some (v :: a ++ r)
         | none => none
       | _ => some r
+
+/-- "if this boolean expression evaluates to false, the target is clean" -/
+def aimpF (A : ACtx) (ρ : AEnv) (t : Target) : Expr → Bool
+  | .not c' => aimp A ρ t c'
+  | .bin op (.var n) (.str lit) => op == "!=" && ρ n == .covS t && cleanB lit
+  | _ => false
+
+/-- the body of an accumulating loop: every statement appends to `acc` or branches.  The result says
+    whether every path has appended something that covers the loop element, or has established that
+    the element is clean (what else is appended does not matter: more to check is not less) -/
+def accOK (A : ACtx) (ρ : AEnv) (acc : String) : Nat → Bool → List Stmt → Option Bool
+  | 0, _, _ => none
+  | _, done, [] => some done
+  | fuel + 1, done, .assign n (.call f [.var a, x]) :: rest =>
+    if n == acc && a == acc && f == "append" then accOK A ρ acc fuel (done || aeval A ρ x == .covS .elem) rest
+    else if n == acc && a == acc && f == "appendSpread" then accOK A ρ acc fuel (done || aeval A ρ x == .covL .elem) rest
+    else none
+  | fuel + 1, done, .ifS c thn els :: rest =>
+    match accOK A ρ acc fuel (done || aimp A ρ .elem c) thn, accOK A ρ acc fuel (done || aimpF A ρ .elem c) els with
+    | some d1, some d2 => accOK A ρ acc fuel (d1 && d2) rest
+    | _, _ => none
+  | _, _, _ => none
+
+/-- `if !cnd { flag = false; break }` as the whole body of a loop -/
+def flagBody? : List Stmt → Option (Expr × String)
+  | [.ifS (.not cnd) [.assign flag (.bool false), .brk] []] => some (cnd, flag)
+  | _ => none
 
 /-- the analysis of a statement list.  `est`: the parameter is already known to be clean on this
     path; `estX`: so is the current loop element; `inLoop`: the list is inside a loop body, so a
@@ -277,7 +309,22 @@ def acheck (A : ACtx) : Nat → Bool → Bool → Bool → Bool → AEnv → Fac
           | none => false
           | some ns =>
             acheck A fuel est false true true ((dropElem (havoc ρ (v :: ns))).set v (.covS .elem)) [] body &&
-            acheck A fuel true false false false forget [] rest)
+            acheck A fuel true false false false forget [] rest) ||
+         -- a loop that clears a flag and stops at the first element a check refuses: afterwards the flag
+         -- is still true only if every element passed
+         (match flagBody? body with
+          | some (cnd, flag) =>
+            flag != v && (ρ flag == .anyBool || ρ flag == .flag .param) &&
+            aimp A ((dropElem (havoc ρ [v, flag])).set v (.covS .elem)) .elem cnd &&
+            acheck A fuel est false false false ((havoc ρ [v, flag]).set flag (.flag .param)) [] rest
+          | none => false) ||
+         -- a loop that only appends to a list: afterwards the list covers what the loop ranged over
+         (match assignedIn fuel body with
+          | some (acc :: _) =>
+            acc != v && isListAV (ρ acc) &&
+            accOK A ((dropElem (havoc ρ [v, acc])).set v (.covS .elem)) acc fuel false body == some true &&
+            acheck A fuel est false false false ((havoc ρ [v, acc]).set acc (.covL .param)) [] rest
+          | _ => false)
        | _ => false)
 
 /-! ### environments -/
@@ -332,6 +379,8 @@ def AVsem (A : ACtx) (tv : Targets) : AV → Val → Prop
   | .cleanS, v => ∃ s, v = .str s ∧ Clean s
   | .cleanL, v => ∃ l, v = .strs l ∧ CleanL l
   | .funcs, v => ∃ fs, v = .funcs fs ∧ ∀ f ∈ fs, f ∈ A.closedFns
+  | .anyBool, v => ∃ b, v = .bool b
+  | .flag t, v => ∃ b, v = .bool b ∧ (b = true → Clean (tv.get t))
   | .other, _ => True
 
 /-- the abstract environment describes the concrete one -/
@@ -688,6 +737,10 @@ theorem aeval_sound (e : Expr) (k : Nat) (val : Val) (h : evalE c k env e = some
         · trivial
       · trivial
     · trivial
+  | bool b =>
+    cases k with
+    | zero => rw [evalE_zero] at h; cases h
+    | succ k => rw [evalE] at h; simp only [Option.some.injEq] at h; exact ⟨b, h.symm⟩
   | _ => trivial
 
 end sem
@@ -738,6 +791,14 @@ theorem aimp_sound (A : ACtx) (c : Ctx) (hS : SoundCtx A c) (tv : Targets) (ρ :
     simp only [aimp, Bool.not_eq_true'] at ha
     subst ha
     simp at h
+  | var n =>
+    simp only [aimp, beq_iff_eq] at ha
+    have hv := evalE_var c (k + 1) env n _ h
+    have := hR n _ hv
+    rw [ha] at this
+    obtain ⟨b, hb, hcl⟩ := this
+    simp only [Val.bool.injEq] at hb
+    exact hcl hb.symm
   | call f args =>
     simp only [aimp] at ha
     split at ha
@@ -1014,6 +1075,8 @@ theorem AVsem_dropElem (A : ACtx) (p x0 x : Bytes) (a : AV) (val : Val) (h : AVs
   | cleanS => exact h
   | cleanL => exact h
   | funcs => exact h
+  | anyBool => exact h
+  | flag t => cases t <;> first | exact h | trivial
   | other => trivial
 
 theorem RelOut.rel {A : ACtx} {p x0 : Bytes} {ρ : AEnv} {S : List String} {env : Env}
@@ -1614,6 +1677,473 @@ theorem facts_sound (A : ACtx) (c : Ctx) (hS : SoundCtx A c) (tv : Targets) (ρ 
             · exact FactsHold.nil env
   | _ => cases pol <;> simp only [facts] <;> exact FactsHold.nil env
 
+theorem RelOut.havoc {A : ACtx} {tv : Targets} {ρ : AEnv} {S : List String} {env : Env}
+    (h : RelOut A tv ρ S env) : Rel A tv (havoc ρ S) env := by
+  intro n val hn
+  unfold Golite.havoc
+  by_cases hs : S.contains n = true
+  · simp only [hs, ↓reduceIte]; trivial
+  · have hs' : S.contains n = false := by simpa using hs
+    simp only [hs', Bool.false_eq_true, ↓reduceIte]
+    exact h n val (by simpa using hs') hn
+
+theorem flagBody?_spec (body : List Stmt) (cnd : Expr) (flag : String) (h : flagBody? body = some (cnd, flag)) :
+    body = [.ifS (.not cnd) [.assign flag (.bool false), .brk] []] := by
+  unfold flagBody? at h
+  split at h
+  · simp only [Option.some.injEq, Prod.mk.injEq] at h
+    obtain ⟨rfl, rfl⟩ := h
+    rfl
+  · cases h
+
+/-- one run of the body of a flag loop -/
+theorem flagBody_exec (c : Ctx) (cnd : Expr) (flag : String) (k1 : Nat) (envx env1 : Env) (ctl1 : Ctl)
+    (h : exec c k1 envx [.ifS (.not cnd) [.assign flag (.bool false), .brk] []] = some (env1, ctl1)) :
+    ∃ k3, k1 = k3 + 2 ∧
+      ((evalE c k3 envx cnd = some (.bool true) ∧ env1 = envx ∧ ctl1 = .next) ∨
+       (evalE c k3 envx cnd = some (.bool false) ∧ env1 = envx.set flag (.bool false) ∧ ctl1 = .brk)) := by
+  cases k1 with
+  | zero => rw [exec_zero] at h; cases h
+  | succ k2 =>
+    rw [exec.eq_def] at h
+    simp only at h
+    cases k2 with
+    | zero => simp [evalE_zero] at h
+    | succ k3 =>
+      refine ⟨k3, rfl, ?_⟩
+      rw [evalE] at h
+      cases hc : evalE c k3 envx cnd with
+      | none => rw [hc] at h; simp at h
+      | some vc =>
+        rw [hc] at h
+        cases vc with
+        | bool bb =>
+          cases bb with
+          | true =>
+            left
+            simp only [Bool.not_true, Bool.false_eq_true, ↓reduceIte] at h
+            rw [exec_nil] at h
+            simp only at h
+            rw [exec_nil] at h
+            simp only [Option.some.injEq, Prod.mk.injEq] at h
+            exact ⟨rfl, h.1.symm, h.2.symm⟩
+          | false =>
+            right
+            simp only [Bool.not_false, ↓reduceIte] at h
+            -- `flag = false; break`
+            cases k3 with
+            | zero => rw [evalE_zero] at hc; cases hc
+            | succ k4 =>
+              rw [exec.eq_def] at h
+              simp only at h
+              rw [evalE] at h
+              simp only at h
+              rw [exec.eq_def] at h
+              simp only [Option.some.injEq, Prod.mk.injEq] at h
+              exact ⟨rfl, h.1.symm, h.2.symm⟩
+        | _ => simp at h
+
+/-- **a flag loop**: the flag is true afterwards only if it was true before and every element passed -/
+theorem flagLoop_sound (A : ACtx) (c : Ctx) (hS : SoundCtx A c) (cnd : Expr) (flag v : String) (hfv : flag ≠ v)
+    (ρ : AEnv) (p x0 : Bytes)
+    (hcnd : aimp A ((dropElem (havoc ρ [v, flag])).set v (.covS .elem)) .elem cnd = true) :
+    ∀ (l : List Bytes) (k : Nat) (env env' : Env) (ctl : Ctl), CallsOK A c (k - 1) →
+      RelOut A ⟨p, x0⟩ ρ [v, flag] env → (∀ val, env.get? flag = some val → ∃ b0, val = .bool b0) →
+      loop c k env v l [.ifS (.not cnd) [.assign flag (.bool false), .brk] []] = some (env', ctl) →
+      ctl = .next ∧ (∀ n, n ≠ v → n ≠ flag → env'.get? n = env.get? n) ∧
+        ∀ val, env'.get? flag = some val → ∃ b, val = .bool b ∧ (b = true → CleanL l) := by
+  intro l
+  induction l with
+  | nil =>
+    intro k env env' ctl _ _ hb0 h
+    cases k with
+    | zero => rw [loop_zero] at h; cases h
+    | succ k =>
+      rw [loop_nil] at h
+      simp only [Option.some.injEq, Prod.mk.injEq] at h
+      obtain ⟨rfl, rfl⟩ := h
+      refine ⟨rfl, fun _ _ _ => rfl, fun val hval => ?_⟩
+      obtain ⟨b0, rfl⟩ := hb0 val hval
+      exact ⟨b0, rfl, fun _ s hs => by simp at hs⟩
+  | cons x xs ih =>
+    intro k env env' ctl hC hRO hb0 h
+    cases k with
+    | zero => rw [loop_zero] at h; cases h
+    | succ k1 =>
+      rw [loop] at h
+      have hsetv : ∀ n, n ≠ v → (env.set v (.str x)).get? n = env.get? n := by
+        intro n hn
+        rw [Env.get?_set]
+        have : (n == v) = false := by simpa using hn
+        simp [this]
+      cases hb : exec c k1 (env.set v (.str x)) [.ifS (.not cnd) [.assign flag (.bool false), .brk] []] with
+      | none => rw [hb] at h; simp at h
+      | some r =>
+        obtain ⟨env1, ctl1⟩ := r
+        rw [hb] at h
+        obtain ⟨k3, rfl, hcase⟩ := flagBody_exec c cnd flag k1 _ env1 ctl1 hb
+        rcases hcase with ⟨hc, rfl, rfl⟩ | ⟨hc, rfl, rfl⟩
+        · -- the element passed: the loop goes on
+          simp only at h
+          have hRb : Rel A ⟨p, x⟩ ((dropElem (havoc ρ [v, flag])).set v (.covS .elem)) (env.set v (.str x)) :=
+            (hRO.rel x).set v _ _ ⟨x, rfl, fun hc => hc⟩
+          have hx : Clean x := aimp_sound A c hS ⟨p, x⟩ _ _ hRb .elem k3 cnd (hC.mono (by omega)) hcnd hc
+          have hRO' : RelOut A ⟨p, x0⟩ ρ [v, flag] (env.set v (.str x)) := by
+            apply hRO.frame
+            intro n hn
+            simp only [List.mem_cons, List.not_mem_nil, or_false, not_or] at hn
+            exact hsetv n hn.1
+          have hb0' : ∀ val, (env.set v (.str x)).get? flag = some val → ∃ b0, val = .bool b0 := by
+            intro val hval; rw [hsetv flag hfv] at hval; exact hb0 val hval
+          obtain ⟨r1, r2, r3⟩ := ih (k3 + 2) _ env' ctl (hC.mono (by omega)) hRO' hb0' h
+          refine ⟨r1, fun n hn1 hn2 => by rw [r2 n hn1 hn2, hsetv n hn1], fun val hval => ?_⟩
+          obtain ⟨b, rfl, r4⟩ := r3 val hval
+          refine ⟨b, rfl, fun hbt s hs => ?_⟩
+          rcases List.mem_cons.mp hs with rfl | hs
+          · exact hx
+          · exact r4 hbt s hs
+        · -- the element was refused: the flag is cleared and the loop is left
+          simp only [Option.some.injEq, Prod.mk.injEq] at h
+          obtain ⟨rfl, rfl⟩ := h
+          refine ⟨rfl, fun n hn1 hn2 => ?_, fun val hval => ?_⟩
+          · rw [Env.get?_set]
+            have : (n == flag) = false := by simpa using hn2
+            simp only [this, Bool.false_eq_true, ↓reduceIte]
+            exact hsetv n hn1
+          · rw [Env.get?_set] at hval
+            simp only [beq_self_eq_true, ↓reduceIte, Option.some.injEq] at hval
+            exact ⟨false, hval.symm, fun hh => by cases hh⟩
+
+theorem aimpF_sound (A : ACtx) (c : Ctx) (hS : SoundCtx A c) (tv : Targets) (ρ : AEnv) (env : Env) (hR : Rel A tv ρ env)
+    (t : Target) (k : Nat) (e : Expr) (hC : CallsOK A c (k - 1)) (ha : aimpF A ρ t e = true)
+    (h : evalE c k env e = some (.bool false)) : Clean (tv.get t) := by
+  cases k with
+  | zero => rw [evalE_zero] at h; cases h
+  | succ k =>
+    unfold aimpF at ha
+    split at ha
+    · rename_i c'
+      rw [evalE] at h
+      split at h
+      · rename_i bb hbb
+        simp only [Option.some.injEq, Val.bool.injEq, Bool.not_eq_false'] at h
+        subst h
+        exact aimp_sound A c hS tv ρ env hR t k c' (hC.mono (by omega)) ha hbb
+      · cases h
+    · rename_i op n lit
+      simp only [Bool.and_eq_true, beq_iff_eq] at ha
+      obtain ⟨⟨rfl, hn⟩, hlit⟩ := ha
+      rw [evalE] at h
+      have h1 : (("!=" : String) == "&&") = false := by decide
+      have h2 : (("!=" : String) == "||") = false := by decide
+      have h3 : (("!=" : String) == "==") = false := by decide
+      simp only [h1, h2, Bool.false_eq_true, ↓reduceIte] at h
+      cases ha' : evalE c k env (.var n) with
+      | none => rw [ha'] at h; simp at h
+      | some va =>
+        cases hb' : evalE c k env (.str lit) with
+        | none => rw [ha', hb'] at h; simp at h
+        | some vb =>
+          have := evalE_str c k env lit vb hb'
+          subst this
+          have hget := evalE_var c k env n va ha'
+          have := hR n va hget
+          rw [hn] at this
+          obtain ⟨s, rfl, hcov⟩ := this
+          rw [ha', hb'] at h
+          simp only [h3, Bool.false_eq_true, ↓reduceIte, beq_self_eq_true, Option.some.injEq, Val.bool.injEq,
+            bne_eq_false_iff_eq] at h
+          apply hcov
+          rw [h]
+          exact (cleanB_iff lit).mp hlit
+    · cases ha
+
+theorem Rel.set_other {A : ACtx} {tv : Targets} {ρ : AEnv} {env : Env} (h : Rel A tv ρ env) (n : String)
+    (hn : ρ n = .other) (v : Val) : Rel A tv ρ (env.set n v) := by
+  intro m val hm
+  rw [Env.get?_set] at hm
+  by_cases hmn : (m == n) = true
+  · have : m = n := by simpa using hmn
+    subst this
+    rw [hn]; trivial
+  · have : (m == n) = false := by simpa using hmn
+    simp only [this, Bool.false_eq_true, ↓reduceIte] at hm
+    exact h m val hm
+
+/-- what the body of an accumulating loop does: it only appends to `acc`; `G` is whatever the list
+    vouched for before, `Clean tv.elem` what it vouches for in addition once `done` is reached -/
+theorem accOK_sound (A : ACtx) (c : Ctx) (hS : SoundCtx A c) (tv : Targets) (ρ : AEnv) (acc : String)
+    (hacc : ρ acc = .other) (G : Prop) :
+    ∀ (k : Nat), CallsOK A c (k - 1) → ∀ (fuel : Nat) (done d : Bool) (stmts : List Stmt) (env env' : Env) (ctl : Ctl),
+      accOK A ρ acc fuel done stmts = some d → Rel A tv ρ env →
+      (∀ val, env.get? acc = some val → ∃ w, val = .strs w ∧ (CleanL w → G)) →
+      (done = true → Clean tv.elem ∨ ∃ w, env.get? acc = some (.strs w) ∧ (CleanL w → Clean tv.elem)) →
+      exec c k env stmts = some (env', ctl) →
+      ctl = .next ∧ (∀ n, n ≠ acc → env'.get? n = env.get? n) ∧
+        (∀ val, env'.get? acc = some val → ∃ w, val = .strs w ∧ (CleanL w → G)) ∧
+        (d = true → Clean tv.elem ∨ ∃ w, env'.get? acc = some (.strs w) ∧ (CleanL w → Clean tv.elem)) := by
+  intro k
+  induction k with
+  | zero => intro _ fuel done d stmts env env' ctl _ _ _ _ h; rw [exec_zero] at h; cases h
+  | succ k ih =>
+    intro hC fuel done d stmts env env' ctl hok hR hJ hI h
+    have hCk : CallsOK A c (k - 1) := hC.mono (by omega)
+    have ih' := ih hCk
+    cases fuel with
+    | zero => simp [accOK] at hok
+    | succ fuel =>
+    cases stmts with
+    | nil =>
+      rw [exec_nil] at h
+      simp only [Option.some.injEq, Prod.mk.injEq] at h
+      obtain ⟨rfl, rfl⟩ := h
+      simp only [accOK, Option.some.injEq] at hok
+      subst hok
+      exact ⟨rfl, fun _ _ => rfl, hJ, hI⟩
+    | cons s rest =>
+      -- one appending step, used for both kinds of append
+      have happ : ∀ (f : String) (x : Expr) (ys : List Bytes) (w : List Bytes) (done' : Bool),
+          env.get? acc = some (.strs w) →
+          (done' = true → done = true ∨ (CleanL ys → Clean tv.elem)) →
+          accOK A ρ acc fuel done' rest = some d →
+          exec c k (env.set acc (.strs (w ++ ys))) rest = some (env', ctl) →
+          ctl = .next ∧ (∀ n, n ≠ acc → env'.get? n = env.get? n) ∧
+            (∀ val, env'.get? acc = some val → ∃ w, val = .strs w ∧ (CleanL w → G)) ∧
+            (d = true → Clean tv.elem ∨ ∃ w, env'.get? acc = some (.strs w) ∧ (CleanL w → Clean tv.elem)) := by
+        intro f x ys w done' hw hdone' hok' h'
+        have hget : (env.set acc (.strs (w ++ ys))).get? acc = some (.strs (w ++ ys)) := by
+          rw [Env.get?_set]; simp
+        obtain ⟨r1, r2, r3, r4⟩ := ih' fuel done' d rest _ env' ctl hok' (hR.set_other acc hacc _)
+          (fun val hval => by
+            rw [hget] at hval
+            simp only [Option.some.injEq] at hval
+            subst hval
+            obtain ⟨w', hw', hG⟩ := hJ _ hw
+            cases hw'
+            exact ⟨w ++ ys, rfl, fun hcl => hG (fun s hs => hcl s (List.mem_append_left _ hs))⟩)
+          (fun hd => by
+            rcases hdone' hd with hd0 | hcov
+            · rcases hI hd0 with hcl | ⟨w', hw', hcl⟩
+              · exact Or.inl hcl
+              · rw [hw] at hw'
+                simp only [Option.some.injEq, Val.strs.injEq] at hw'
+                subst hw'
+                exact Or.inr ⟨w ++ ys, hget, fun hc => hcl (fun s hs => hc s (List.mem_append_left _ hs))⟩
+            · exact Or.inr ⟨w ++ ys, hget, fun hc => hcov (fun s hs => hc s (List.mem_append_right _ hs))⟩) h'
+        refine ⟨r1, fun n hn => ?_, r3, r4⟩
+        rw [r2 n hn, Env.get?_set]
+        have : (n == acc) = false := by simpa using hn
+        simp [this]
+      cases s with
+      | assign n e =>
+        rw [exec.eq_def] at h
+        simp only at h
+        unfold accOK at hok
+        split at hok
+        · cases hok
+        · contradiction
+        · rename_i done' stmts' fuel' n' f a x rest' heq1 heq3
+          simp only [Nat.succ_eq_add_one, Nat.add_right_cancel_iff] at heq1
+          subst heq1
+          simp only [List.cons.injEq, Stmt.assign.injEq] at heq3
+          obtain ⟨⟨rfl, rfl⟩, rfl⟩ := heq3
+          -- the value of `append(acc, x)` / `append(acc, x...)`
+          cases hv : evalE c k env (.call f [.var a, x]) with
+          | none => rw [hv] at h; simp at h
+          | some val =>
+            rw [hv] at h
+            simp only at h
+            cases k with
+            | zero => rw [evalE_zero] at hv; cases hv
+            | succ k' =>
+            rw [evalE] at hv
+            cases hargs : evalArgs c k' env [.var a, x] with
+            | none => rw [hargs] at hv; simp at hv
+            | some vs =>
+              obtain ⟨va, vx, j, rfl, h1, h2, rfl⟩ := evalArgs_two c env (.var a) x k' vs hargs
+              rw [hargs] at hv
+              have hga := evalE_var c (j + 1) env a va h1
+              have sx := aeval_sound A c hS.lower tv ρ env hR x _ vx h2
+              split at hok
+              · rename_i hcond
+                simp only [Bool.and_eq_true, beq_iff_eq] at hcond
+                obtain ⟨⟨rfl, rfl⟩, rfl⟩ := hcond
+                have hne : (("append" : String) == "multiSplit") = false := by decide
+                simp only [hne, Bool.false_eq_true, ↓reduceIte] at hv
+                cases va with
+                | strs w =>
+                  cases vx with
+                  | str sx' =>
+                    simp only [Option.some.injEq] at hv
+                    subst hv
+                    refine happ "append" x [sx'] w _ hga (fun hd => ?_) hok h
+                    simp only [Bool.or_eq_true, beq_iff_eq] at hd
+                    rcases hd with hd | hd
+                    · exact Or.inl hd
+                    · right
+                      rw [hd] at sx
+                      obtain ⟨s', hs', hcov⟩ := sx
+                      cases hs'
+                      exact fun hc => hcov (hc sx' (by simp))
+                  | _ => simp at hv
+                | _ => simp at hv
+              · split at hok
+                · rename_i hcond
+                  simp only [Bool.and_eq_true, beq_iff_eq] at hcond
+                  obtain ⟨⟨rfl, rfl⟩, rfl⟩ := hcond
+                  have hne : (("appendSpread" : String) == "multiSplit") = false := by decide
+                  simp only [hne, Bool.false_eq_true, ↓reduceIte] at hv
+                  cases va with
+                  | strs w =>
+                    cases vx with
+                    | strs xs' =>
+                      simp only [Option.some.injEq] at hv
+                      subst hv
+                      refine happ "appendSpread" x xs' w _ hga (fun hd => ?_) hok h
+                      simp only [Bool.or_eq_true, beq_iff_eq] at hd
+                      rcases hd with hd | hd
+                      · exact Or.inl hd
+                      · right
+                        rw [hd] at sx
+                        obtain ⟨l', hl', hcov⟩ := sx
+                        cases hl'
+                        exact hcov
+                    | _ => simp at hv
+                  | _ => simp at hv
+                · cases hok
+        · rename_i heq; simp at heq
+        · first | contradiction | cases hok
+      | ifS cnd thn els =>
+        rw [exec.eq_def] at h
+        simp only at h
+        simp only [accOK] at hok
+        split at hok
+        · rename_i d1 d2 hd1 hd2
+          split at h
+          · rename_i b hb
+            -- the branch that runs
+            have hbranch : ∀ env1 ctl1, exec c k env (if b = true then thn else els) = some (env1, ctl1) →
+                ctl1 = .next ∧ (∀ n, n ≠ acc → env1.get? n = env.get? n) ∧
+                (∀ val, env1.get? acc = some val → ∃ w, val = .strs w ∧ (CleanL w → G)) ∧
+                ((d1 && d2) = true → Clean tv.elem ∨ ∃ w, env1.get? acc = some (.strs w) ∧ (CleanL w → Clean tv.elem)) := by
+              intro env1 ctl1 hbr
+              cases b with
+              | true =>
+                simp only [↓reduceIte] at hbr
+                obtain ⟨r1, r2, r3, r4⟩ := ih' fuel _ d1 thn env env1 ctl1 hd1 hR hJ (fun hd => by
+                  simp only [Bool.or_eq_true] at hd
+                  rcases hd with hd | hd
+                  · exact hI hd
+                  · exact Or.inl (aimp_sound A c hS tv ρ env hR .elem k cnd hCk hd hb)) hbr
+                exact ⟨r1, r2, r3, fun hd => r4 (by simp only [Bool.and_eq_true] at hd; exact hd.1)⟩
+              | false =>
+                simp only [Bool.false_eq_true, ↓reduceIte] at hbr
+                obtain ⟨r1, r2, r3, r4⟩ := ih' fuel _ d2 els env env1 ctl1 hd2 hR hJ (fun hd => by
+                  simp only [Bool.or_eq_true] at hd
+                  rcases hd with hd | hd
+                  · exact hI hd
+                  · exact Or.inl (aimpF_sound A c hS tv ρ env hR .elem k cnd hCk hd hb)) hbr
+                exact ⟨r1, r2, r3, fun hd => r4 (by simp only [Bool.and_eq_true] at hd; exact hd.2)⟩
+            split at h
+            · rename_i env1 hbr
+              obtain ⟨_, b2, b3, b4⟩ := hbranch env1 .next hbr
+              have hR1 : Rel A tv ρ env1 := by
+                intro n val hn
+                by_cases hna : n = acc
+                · subst hna; rw [hacc]; trivial
+                · exact hR n val (by rw [← b2 n hna]; exact hn)
+              obtain ⟨r1, r2, r3, r4⟩ := ih' fuel _ d rest env1 env' ctl hok hR1 b3 b4 h
+              exact ⟨r1, fun n hn => by rw [r2 n hn, b2 n hn], r3, r4⟩
+            · rename_i hno
+              obtain ⟨b1, _, _, _⟩ := hbranch env' ctl h
+              subst b1
+              exact absurd h (hno env')
+          · cases h
+        · cases hok
+      | _ => simp [accOK] at hok
+
+/-- **an accumulating loop**: afterwards the list vouches for every element the loop ranged over -/
+theorem accLoop_sound (A : ACtx) (c : Ctx) (hS : SoundCtx A c) (acc v : String) (hav : acc ≠ v)
+    (ρ : AEnv) (p x0 : Bytes) (fuel : Nat) (body : List Stmt)
+    (hok : accOK A ((dropElem (havoc ρ [v, acc])).set v (.covS .elem)) acc fuel false body = some true) :
+    ∀ (l : List Bytes) (k : Nat) (env env' : Env) (ctl : Ctl), CallsOK A c (k - 1) →
+      RelOut A ⟨p, x0⟩ ρ [v, acc] env →
+      (∀ val, env.get? acc = some val → ∃ w, val = .strs w ∧ (CleanL w → CleanL ([] : List Bytes))) →
+      loop c k env v l body = some (env', ctl) →
+      ctl = .next ∧ (∀ n, n ≠ v → n ≠ acc → env'.get? n = env.get? n) ∧
+        ∀ val, env'.get? acc = some val → ∃ w, val = .strs w ∧ (CleanL w → CleanL l) := by
+  -- generalised: the list already vouches for the elements `done` ranged over before
+  suffices hgen : ∀ (l : List Bytes) (seen : List Bytes) (k : Nat) (env env' : Env) (ctl : Ctl), CallsOK A c (k - 1) →
+      RelOut A ⟨p, x0⟩ ρ [v, acc] env →
+      (∀ val, env.get? acc = some val → ∃ w, val = .strs w ∧ (CleanL w → CleanL seen)) →
+      loop c k env v l body = some (env', ctl) →
+      ctl = .next ∧ (∀ n, n ≠ v → n ≠ acc → env'.get? n = env.get? n) ∧
+        ∀ val, env'.get? acc = some val → ∃ w, val = .strs w ∧ (CleanL w → CleanL (seen ++ l)) by
+    intro l k env env' ctl hC hRO hJ h
+    have := hgen l [] k env env' ctl hC hRO hJ h
+    simpa using this
+  intro l
+  induction l with
+  | nil =>
+    intro seen k env env' ctl _ _ hJ h
+    cases k with
+    | zero => rw [loop_zero] at h; cases h
+    | succ k =>
+      rw [loop_nil] at h
+      simp only [Option.some.injEq, Prod.mk.injEq] at h
+      obtain ⟨rfl, rfl⟩ := h
+      exact ⟨rfl, fun _ _ _ => rfl, by simpa using hJ⟩
+  | cons x xs ih =>
+    intro seen k env env' ctl hC hRO hJ h
+    cases k with
+    | zero => rw [loop_zero] at h; cases h
+    | succ k1 =>
+      rw [loop] at h
+      have hsetv : ∀ n, n ≠ v → (env.set v (.str x)).get? n = env.get? n := by
+        intro n hn
+        rw [Env.get?_set]
+        have : (n == v) = false := by simpa using hn
+        simp [this]
+      have hρacc : ((dropElem (havoc ρ [v, acc])).set v (.covS .elem)) acc = .other := by
+        unfold AEnv.set dropElem Golite.havoc
+        have h1 : (acc == v) = false := by simpa using hav
+        have h2 : [v, acc].contains acc = true := by simp
+        simp only [h1, Bool.false_eq_true, ↓reduceIte, h2, dropTag]
+      have hRb : Rel A ⟨p, x⟩ ((dropElem (havoc ρ [v, acc])).set v (.covS .elem)) (env.set v (.str x)) :=
+        (hRO.rel x).set v _ _ ⟨x, rfl, fun hc => hc⟩
+      cases hb : exec c k1 (env.set v (.str x)) body with
+      | none => rw [hb] at h; simp at h
+      | some r =>
+        obtain ⟨env1, ctl1⟩ := r
+        obtain ⟨rfl, b2, b3, b4⟩ := accOK_sound A c hS ⟨p, x⟩ _ acc hρacc (CleanL seen) k1 (hC.mono (by omega)) fuel false true
+          body _ env1 ctl1 hok hRb (fun val hval => by rw [hsetv acc hav] at hval; exact hJ val hval)
+          (fun hh => by cases hh) hb
+        rw [hb] at h
+        simp only at h
+        have hRO' : RelOut A ⟨p, x0⟩ ρ [v, acc] env1 := by
+          apply hRO.frame
+          intro n hn
+          simp only [List.mem_cons, List.not_mem_nil, or_false, not_or] at hn
+          rw [b2 n hn.2, hsetv n hn.1]
+        have hJ' : ∀ val, env1.get? acc = some val → ∃ w, val = .strs w ∧ (CleanL w → CleanL (seen ++ [x])) := by
+          intro val hval
+          obtain ⟨w, rfl, hw⟩ := b3 val hval
+          refine ⟨w, rfl, fun hcl s hs => ?_⟩
+          rcases List.mem_append.mp hs with hs | hs
+          · exact hw hcl s hs
+          · simp only [List.mem_singleton] at hs
+            subst hs
+            rcases b4 rfl with hx | ⟨w', hw', hx⟩
+            · exact hx
+            · rw [hval] at hw'
+              simp only [Option.some.injEq, Val.strs.injEq] at hw'
+              subst hw'
+              exact hx hcl
+        obtain ⟨r1, r2, r3⟩ := ih (seen ++ [x]) k1 env1 env' ctl (hC.mono (by omega)) hRO' hJ' h
+        refine ⟨r1, fun n hn1 hn2 => by rw [r2 n hn1 hn2, b2 n hn2, hsetv n hn1], fun val hval => ?_⟩
+        obtain ⟨w, rfl, hw⟩ := r3 val hval
+        exact ⟨w, rfl, by simpa using hw⟩
+
 /-- what the analysis promises of a run of a statement list -/
 def ExecOK (tv : Targets) (inLoop endsBody : Bool) (ctl : Ctl) : Prop :=
   (ctl = .ret (.bool true) → Clean tv.param) ∧
@@ -1810,24 +2340,124 @@ theorem exec_sound (A : ACtx) (c : Ctx) (hS : SoundCtx A c) : ∀ (k : Nat), Cal
               rw [hcov] at hsem
               obtain ⟨l', hl', hcovl⟩ := hsem
               cases hl'
-              split at hac
-              · cases hac
-              · rename_i ns hns
-                simp only [Bool.and_eq_true] at hac
-                obtain ⟨hbody, hrest⟩ := hac
-                have hloop : ∀ env1 ctl1, loop c k env v l body = some (env1, ctl1) →
-                    (ctl1 = .ret (.bool true) → Clean tv.param) ∧ (ctl1 = .next → CleanL l) ∧ ctl1 ≠ .brk ∧ ctl1 ≠ .cont := by
-                  intro env1 ctl1 hlp
-                  exact ihL af af body ns v l env ρ est tv.param tv.elem env1 ctl1 hns hbody (hR.relOut _) hest hlp
-                split at h
-                · rename_i env1 hlp
-                  have hcl := (hloop env1 .next hlp).2.1 rfl
-                  have := ihE af rest env1 forget [] true false false false tv env' ctl hrest (Rel.forget A tv env1)
-                    (FactsHold.nil env1) (fun _ => hcovl hcl) (fun hh => by cases hh) h
-                  exact ⟨this.1, (fun hh => by cases hh), (fun hh => by cases hh), this.2.2.2⟩
-                · rename_i hno
-                  obtain ⟨h1, _, h3, h4⟩ := hloop env' ctl h
-                  exact ⟨h1, (fun hh => by cases hh), (fun hh => by cases hh), h3⟩
+              simp only [Bool.or_eq_true] at hac
+              rcases hac with (hac | hac) | hac
+              · split at hac
+                · cases hac
+                · rename_i ns hns
+                  simp only [Bool.and_eq_true] at hac
+                  obtain ⟨hbody, hrest⟩ := hac
+                  have hloop : ∀ env1 ctl1, loop c k env v l body = some (env1, ctl1) →
+                      (ctl1 = .ret (.bool true) → Clean tv.param) ∧ (ctl1 = .next → CleanL l) ∧ ctl1 ≠ .brk ∧ ctl1 ≠ .cont := by
+                    intro env1 ctl1 hlp
+                    exact ihL af af body ns v l env ρ est tv.param tv.elem env1 ctl1 hns hbody (hR.relOut _) hest hlp
+                  split at h
+                  · rename_i env1 hlp
+                    have hcl := (hloop env1 .next hlp).2.1 rfl
+                    have := ihE af rest env1 forget [] true false false false tv env' ctl hrest (Rel.forget A tv env1)
+                      (FactsHold.nil env1) (fun _ => hcovl hcl) (fun hh => by cases hh) h
+                    exact ⟨this.1, (fun hh => by cases hh), (fun hh => by cases hh), this.2.2.2⟩
+                  · rename_i hno
+                    obtain ⟨h1, _, h3, h4⟩ := hloop env' ctl h
+                    exact ⟨h1, (fun hh => by cases hh), (fun hh => by cases hh), h3⟩
+              · -- a flag loop
+                split at hac
+                · rename_i cnd flag hfb
+                  have hbodyeq := flagBody?_spec body cnd flag hfb
+                  subst hbodyeq
+                  simp only [Bool.and_eq_true, bne_iff_ne, ne_eq, Bool.or_eq_true, beq_iff_eq] at hac
+                  obtain ⟨⟨⟨hfv, hflag⟩, hcnd⟩, hrest⟩ := hac
+                  -- the flag holds a boolean before the loop
+                  have hbool : ∀ val, env.get? flag = some val → ∃ b0, val = .bool b0 := by
+                    intro val hval
+                    have := hR flag val hval
+                    rcases hflag with hflag | hflag
+                    · rw [hflag] at this; exact this
+                    · rw [hflag] at this; obtain ⟨b, hb, _⟩ := this; exact ⟨b, hb⟩
+                  have hloop : ∀ env1 ctl1, loop c k env v l [.ifS (.not cnd) [.assign flag (.bool false), .brk] []] = some (env1, ctl1) →
+                      ctl1 = .next ∧ (∀ n, n ≠ v → n ≠ flag → env1.get? n = env.get? n) ∧
+                        (∀ val, env1.get? flag = some val → ∃ b, val = .bool b ∧ (b = true → CleanL l)) := by
+                    intro env1 ctl1 hlp
+                    exact flagLoop_sound A c hS cnd flag v hfv ρ tv.param tv.elem hcnd l k env env1 ctl1
+                      hCk (hR.relOut _) hbool hlp
+                  split at h
+                  · rename_i env1 hlp
+                    obtain ⟨_, hframe, hfl⟩ := hloop env1 .next hlp
+                    have hR1 : Rel A tv ((havoc ρ [v, flag]).set flag (.flag .param)) env1 := by
+                      intro n val hn
+                      unfold AEnv.set
+                      by_cases hnf : (n == flag) = true
+                      · have : n = flag := by simpa using hnf
+                        subst this
+                        simp only [beq_self_eq_true, ↓reduceIte]
+                        obtain ⟨b, rfl, hb⟩ := hfl val hn
+                        exact ⟨b, rfl, fun hbt => hcovl (hb hbt)⟩
+                      · have hnf' : (n == flag) = false := by simpa using hnf
+                        simp only [hnf', Bool.false_eq_true, ↓reduceIte]
+                        unfold Golite.havoc
+                        by_cases hnv : n = v
+                        · subst hnv
+                          have hc : [n, flag].contains n = true := by simp
+                          simp only [hc, ↓reduceIte]; trivial
+                        · have hne : n ≠ flag := by simpa using hnf'
+                          have hc : [v, flag].contains n = false := by simp [hnv, hne]
+                          simp only [hc, Bool.false_eq_true, ↓reduceIte]
+                          exact hR n val (by rw [← hframe n hnv hne]; exact hn)
+                    have := ihE af rest env1 _ [] est false false false tv env' ctl hrest hR1 (FactsHold.nil env1) hest
+                      (fun hh => by cases hh) h
+                    exact ⟨this.1, (fun hh => by cases hh), (fun hh => by cases hh), this.2.2.2⟩
+                  · rename_i hno
+                    obtain ⟨h1, _, _⟩ := hloop env' ctl h
+                    subst h1
+                    exact absurd h (hno env')
+                · cases hac
+              · -- an accumulating loop
+                split at hac
+                · rename_i acc nsr hns
+                  simp only [Bool.and_eq_true, bne_iff_ne, ne_eq, beq_iff_eq] at hac
+                  obtain ⟨⟨⟨hav, hlist⟩, hok⟩, hrest⟩ := hac
+                  have hlistv : ∀ val, env.get? acc = some val → ∃ w, val = .strs w := by
+                    intro val hval
+                    exact isListAV_sem hlist (hR acc val hval)
+                  have hloop : ∀ env1 ctl1, loop c k env v l body = some (env1, ctl1) →
+                      ctl1 = .next ∧ (∀ n, n ≠ v → n ≠ acc → env1.get? n = env.get? n) ∧
+                        (∀ val, env1.get? acc = some val → ∃ w, val = .strs w ∧ (CleanL w → CleanL l)) := by
+                    intro env1 ctl1 hlp
+                    exact accLoop_sound A c hS acc v hav ρ tv.param tv.elem af body hok l k env env1 ctl1
+                      hCk (hR.relOut _) (fun val hval => by
+                        obtain ⟨w, rfl⟩ := hlistv val hval
+                        exact ⟨w, rfl, fun _ s hs => by simp at hs⟩) hlp
+                  split at h
+                  · rename_i env1 hlp
+                    obtain ⟨_, hframe, hfl⟩ := hloop env1 .next hlp
+                    have hR1 : Rel A tv ((havoc ρ [v, acc]).set acc (.covL .param)) env1 := by
+                      intro n val hn
+                      unfold AEnv.set
+                      by_cases hnf : (n == acc) = true
+                      · have : n = acc := by simpa using hnf
+                        subst this
+                        simp only [beq_self_eq_true, ↓reduceIte]
+                        obtain ⟨w, rfl, hw⟩ := hfl val hn
+                        exact ⟨w, rfl, fun hcl => hcovl (hw hcl)⟩
+                      · have hnf' : (n == acc) = false := by simpa using hnf
+                        simp only [hnf', Bool.false_eq_true, ↓reduceIte]
+                        unfold Golite.havoc
+                        by_cases hnv : n = v
+                        · subst hnv
+                          have hc : [n, acc].contains n = true := by simp
+                          simp only [hc, ↓reduceIte]; trivial
+                        · have hne : n ≠ acc := by simpa using hnf'
+                          have hc : [v, acc].contains n = false := by simp [hnv, hne]
+                          simp only [hc, Bool.false_eq_true, ↓reduceIte]
+                          exact hR n val (by rw [← hframe n hnv hne]; exact hn)
+                    have := ihE af rest env1 _ [] est false false false tv env' ctl hrest hR1 (FactsHold.nil env1) hest
+                      (fun hh => by cases hh) h
+                    exact ⟨this.1, (fun hh => by cases hh), (fun hh => by cases hh), this.2.2.2⟩
+                  · rename_i hno
+                    obtain ⟨h1, _, _⟩ := hloop env' ctl h
+                    subst h1
+                    exact absurd h (hno env')
+                · cases hac
             · cases hac
           · cases h
     · intro af F body ns v l env ρ est p x0 env' ctl hns hbody hRO hest h
